@@ -26,7 +26,7 @@ def configs(tier):
 def base_ops(cfg):
     ops = []
     for d in (cfg.disknames[:1] if cfg.tag == "second-empty" else cfg.disknames):
-        ops += [("write", d, "f1", 1500, 0), ("write", d, "sub/f2", 1025, 0)]
+        ops += [("write", d, "f1", 1500, 0), ("write", d, "sub/f2", 1025, 0), ("mkdir", d, "keepdir")]
     ops += [("write", "d1", "big", 3000, 0), ("cmd", "sync")]
     return ops
 
@@ -43,6 +43,9 @@ def triggers(cfg):
         t.append(("all-rewritten:" + d, [("write", d, "f1", 1500, 1), ("write", d, "sub/f2", 1025, 1)] +
                   ([("write", d, "big", 3000, 1)] if d == "d1" else []), ("-E",), None))
         t.append(("missing+rewritten:" + d, [("rm", d, "f1"), ("write", d, "sub/f2", 1025, 1)] +
+                  ([("rm", d, "big")] if d == "d1" else []), ("-E",), None))
+        # every FILE gone, the recorded empty directory still there
+        t.append(("all-files-missing-emptydir-stays:" + d, [("rm", d, "f1"), ("rm", d, "sub/f2")] +
                   ([("rm", d, "big")] if d == "d1" else []), ("-E",), None))
         t.append(("zero-size:" + d, [("write", d, "f1", 0, 1)], ("--force-zero",), None))
         t.append(("zero-size-in-subdir:" + d, [("write", d, "sub/f2", 0, 1)], ("--force-zero",), None))
